@@ -19,7 +19,7 @@ int w08_var(int tmpl, int what, int i);
 int w08_add_template(int name, int nparams, int is_ta, int dynamic);
 int w08_templ(int dynamic, int what, int i);
 int w08_param_count(int dynamic, int i);
-int w08_add_instance(int name, int nfree, int nargs, int src_arguments, int pre_mapped);
+int w08_add_instance(int name, int nfree, int nargs, int src_arguments, int pre_mapped, int src_kind, int ns);
 int w08_inst(int what, int i);
 int w08_mapped_count(int i);
 
@@ -124,25 +124,29 @@ void h_c08_template(void)
 }
 void h_c08_instance(void)
 {
-    int np, nfree, nargs, name, srcargs, pre;
-    __CPROVER_assume(np >= 0 && np <= 2 && nfree >= 0 && nfree <= 1 && nargs >= 0 && nargs <= np && name >= 70 && name <= 72);
-    /* the instantiated instance is arbitrary: it may have passed any number of arguments itself and may carry inherited
-       bindings for parameters it does not rebind now */
-    __CPROVER_assume(srcargs >= 0 && srcargs <= 2 && pre >= 0 && pre < 4);
-    w08_init(0, 0, np, 0); /* template 0 has np parameters (names 30, 31) */
-    int k = w08_add_instance(name, nfree, nargs, srcargs, pre);
+    int np, nfree, nargs, name, srcargs, pre, kind, ns;
+    __CPROVER_assume(np >= 0 && np <= 2 && nfree >= 0 && nfree <= 1 && name >= 70 && name <= 72);
+    /* the instantiated instance is arbitrary: template 0 itself (kind 0, np parameters named 30, 31) or a partial instance of
+       it with ns parameters of its own (kind 1, named 80, 81); it may have passed any number of arguments itself and may
+       carry inherited bindings for parameters it does not rebind now */
+    __CPROVER_assume(srcargs >= 0 && srcargs <= 2 && pre >= 0 && pre < 4 && (kind == 0 || kind == 1) && ns >= 0 && ns <= 2);
+    int nsrc = kind == 0 ? np : ns;     /* number of parameters of the instantiated instance */
+    int base = kind == 0 ? 30 : 80;
+    __CPROVER_assume(nargs >= 0 && nargs <= nsrc);
+    w08_init(0, 0, np, 0);
+    int k = w08_add_instance(name, nfree, nargs, srcargs, pre, kind, ns);
     __CPROVER_assert(k == 0 && w08_inst(0, 0) == 1, "c08.add_instance.instance-is-appended");
     __CPROVER_assert(w08_inst(3, k) && w08_inst(4, k) == name, "c08.add_instance.the-instance-is-the-user-object-of-its-own-symbol");
     __CPROVER_assert(w08_inst(6, k) == nfree && w08_inst(7, k) == nargs, "c08.add_instance.unbound-and-argument-counts");
     __CPROVER_assert(w08_inst(30, k), "c08.add_instance.type-is-an-instance-type-whose-arity-equals-the-number-of-unbound-parameters");
-    __CPROVER_assert(w08_inst(9, k) == nfree + np, "c08.add_instance.parameters-are-the-new-unbound-ones-followed-by-the-template's");
+    __CPROVER_assert(w08_inst(9, k) == nfree + nsrc, "c08.add_instance.parameters-are-the-new-unbound-ones-followed-by-the-instantiated-instance's");
     for (int i = 0; i < 3; i++) {
         if (i < nfree) __CPROVER_assert(w08_inst(10 + i, k) == 40 + i, "c08.add_instance.unbound-parameters-come-first");
-        else if (i < nfree + np) __CPROVER_assert(w08_inst(10 + i, k) == 30 + (i - nfree), "c08.add_instance.then-the-instantiated-template's-parameters-in-order");
+        else if (i < nfree + nsrc) __CPROVER_assert(w08_inst(10 + i, k) == base + (i - nfree), "c08.add_instance.then-the-instantiated-instance's-parameters-in-order");
     }
     int inherited = 0;
     for (int i = 0; i < 2; i++) {
-        if (i < np) {
+        if (i < nsrc) {
             int want = i < nargs ? 1 : ((pre >> i) & 1) ? 3 : 0;
             if (want == 3) inherited++;
             __CPROVER_assert(w08_inst(20 + i, k) == want, "c08.add_instance.newly-bound-parameters-map-to-their-arguments,-inherited-bindings-are-kept,-nothing-else-is-mapped");
@@ -150,5 +154,7 @@ void h_c08_instance(void)
     }
     __CPROVER_assert(w08_mapped_count(k) == nargs + inherited, "c08.add_instance.the-mapping-is-exactly-the-inherited-bindings-plus-the-new-ones");
     __CPROVER_assert(w08_inst(8, k), "c08.add_instance.instance-refers-to-the-instantiated-template");
+    if (kind == 1 && nargs > 0) __CPROVER_assert(0, "reach:partial-instance-instantiated-with-arguments");
+    if (inherited > 0) __CPROVER_assert(0, "reach:inherited-binding");
     REACH;
 }
